@@ -406,4 +406,253 @@ theorem closedP_of_cnA (H : Hyp a T) (M A P : List Word) (ka Lw : Nat) (hka : ka
       rw [this] at c2
       simpa only [List.append_assoc] using c2
 
+
+/-- **one `RevealAfter` call in the two-sided protocol** -/
+theorem revealAfter_stepT (H : Hyp a T) (R : Ptr → Rat) {M A : List Word} {La : Nat} {cA : Chart} {pA pM : Rat}
+    (GA : FragC a T R A La cA pA) {bw : List Word} {kb ka Lk : Nat} {left : LeftSt} {right : State} {acc : Rat}
+    (hkb : kb ≤ bw.length)
+    (I : PT a T R M A pM bw kb ka Lk left right acc) (hk : ka < La) :
+    ∃ Lk', PT a T R M A pM bw kb (ka+1) Lk'
+      (revealAfter T R left right { pointers := cA.left.pointers.take (ka+1), full := false } ka).2.1
+      (revealAfter T R left right { pointers := cA.left.pointers.take (ka+1), full := false } ka).2.2
+      (acc + (revealAfter T R left right { pointers := cA.left.pointers.take (ka+1), full := false } ka).1) := by
+  have hord : T.order = a.order := H.tf.order_eq
+  have hN2 := H.wf.order_ge
+  have hLa := GA.L_le
+  have hkaA : ka < A.length := by omega
+  have hkal : (A.take ka).length = ka := by rw [List.length_take]; omega
+  have hFl : (M ++ A.take ka).length = M.length + ka := by rw [List.length_append, hkal]
+  have hFrev : (M ++ A.take ka).reverse = gm1 A ka ++ M.reverse := by rw [List.reverse_append]; rfl
+  have hFs := F_succ M A ka hkaA
+  have hPl : (bw.take kb).length = kb := by rw [List.length_take]; omega
+  let hR := M.reverse ++ bw
+  have hRl : hR.length = M.length + bw.length := by simp [hR]
+  let nu := right.length
+  have hnuR : nu ≤ hR.length := by have := I.nu_le; omega
+  have hps : ({ pointers := cA.left.pointers.take (ka+1), full := false } : LeftSt).pointers.drop ka =
+      ((List.range (ka+1)).map (fun i => pre A i ++ [])).drop ka := by
+    show (cA.left.pointers.take (ka+1)).drop ka = _
+    rw [GA.ptrs, ← List.map_take, List.take_range, Nat.min_eq_left (by omega)]
+    simp
+  -- transport of the fragment facts to `M ++ A.take (ka+1)`
+  have hpreF : ∀ i, i < (M ++ A.take ka).length → pre (M ++ A.take (ka+1)) i = pre (M ++ A.take ka) i := by
+    intro i hi; rw [hFs, pre_append _ _ hi]
+  have hptrsF : ∀ L, L ≤ (M ++ A.take ka).length →
+      (List.range L).map (fun i => pre (M ++ A.take ka) i ++ bw.take kb) = (List.range L).map (fun i => pre (M ++ A.take (ka+1)) i ++ bw.take kb) := by
+    intro L hL
+    apply List.map_congr_left
+    intro i hi
+    have : i < L := by simpa using hi
+    rw [hpreF i (by omega)]
+  have hpsumA : psum R A [] (ka+1) = psum R A [] ka + R (pre A ka) := by
+    unfold psum; rw [dsum_snoc]; simp
+  -- the new word scored after everything incorporated so far, given the revealed before-words
+  have hscoreDone : ∀ sc : Rat, sc = score a ((M ++ A.take ka).reverse ++ bw.take kb) A[ka] →
+      psum R (M ++ A.take ka) (bw.take kb) Lk + specSeq a (gm1 (M ++ A.take ka) Lk ++ bw.take kb) ((M ++ A.take ka).drop Lk) + sc =
+      psum R (M ++ A.take (ka+1)) (bw.take kb) Lk +
+        specSeq a (gm1 (M ++ A.take (ka+1)) Lk ++ bw.take kb) ((M ++ A.take (ka+1)).drop Lk) := by
+    intro sc hsc
+    rw [hFs, psum_append R _ _ _ Lk I.Lk_le, gm1_append _ _ Lk I.Lk_le, List.drop_append_of_le_length I.Lk_le, specSeq_append]
+    simp only [specSeq]
+    have : ((M ++ A.take ka).drop Lk).reverse ++ (gm1 (M ++ A.take ka) Lk ++ bw.take kb) = (M ++ A.take ka).reverse ++ bw.take kb := by
+      rw [← List.append_assoc]; congr 1
+      unfold gm1; rw [← List.reverse_append, List.take_append_drop]
+    rw [this, hsc]; grind
+  have hcur : hR.take (M.length + kb) = M.reverse ++ bw.take kb := by
+    have e : M.length + kb = M.reverse.length + kb := by simp
+    rw [e, take_append_len]
+  by_cases hfull : left.full = true
+  · -- complete already: the pointer is finalised with what the residual right state still offers
+    obtain ⟨hcl, hdeadR⟩ := I.closed hfull
+    have C : LoopCtx a T A [] hR (ka+1) nu :=
+      ⟨by omega, fun i hi => by simpa using GA.ptr_xl i (by omega), by have := GA.L_lt; simp; omega, hnuR⟩
+    have I0 : InvL a A [] hR nu ka { nextUse := nu, backIn := (right.backoff.take right.length).take nu } := by
+      refine ⟨Nat.le_refl _, by have := I.hN; show ka + 0 + 1 + nu ≤ a.order; omega, ?_, ?_⟩
+      · show ((right.backoff.take right.length).take nu).take nu = _
+        rw [List.take_take, Nat.min_self, List.take_take, Nat.min_self, I.back]
+        simp only [List.append_nil]
+        rfl
+      · intro kk h1 h2; simpa using hdeadR kk h1 h2
+    have hw : (!left.full) = false := by simp [hfull]
+    obtain ⟨Lw, s1, s2, s3, s4, s5, s6, s7, s8, s9⟩ :=
+      extendLoop_sem H R C ka ka (by simp) (by omega) (right.backoff.take right.length) I0 (!left.full) (fun hc => by rw [hw] at hc; cases hc)
+    have hLw : Lw = ka := s3 hw
+    unfold revealAfter
+    dsimp only
+    rw [I.words, hps]
+    generalize extendLoop T R ka (hR.take nu) (right.backoff.take right.length)
+      (((List.range (ka+1)).map (fun i => pre A i ++ [])).drop ka) (!left.full) = v at s4 s7 s8 s9
+    simp only [Bool.false_eq_true, if_false, hfull, if_true]
+    have hnu' : v.nextUse ≤ nu := s7.nu_le
+    have hdone : v.adjust = score a (gm1 A ka ++ hR) A[ka] - R (pre A ka) := by
+      rw [s8, hLw, Nat.sub_self]
+      have e1 : ka + 1 - ka = 1 := by omega
+      rw [e1]; simp only [dsum, doneTerm, List.append_nil]
+      rw [getD_getElem _ _ hkaA]; grind
+    have hsc : v.adjust + R (pre A ka) = score a ((M ++ A.take ka).reverse ++ bw.take kb) A[ka] := by
+      rw [hdone, hFrev, List.append_assoc, ← hcur]
+      have := score_cut H A[ka] (gm1 A ka) hR nu (M.length + kb) I.nu_le (fun kk h1 h2 => hdeadR kk h1 h2)
+      rw [this]; grind
+    refine ⟨Lk, ⟨by omega, by rw [I.ptrs]; exact hptrsF Lk I.Lk_le, fun i hi => by rw [hpreF i (by have := I.Lk_le; omega)]; exact I.xl i hi,
+      by rw [hFs]; simp; have := I.Lk_le; omega, I.bound, ?_, by show v.nextUse ≤ _; have := I.nu_le; omega, ?_,
+      by have := s7.hN; simpa using this, ?_, (fun hc => by rw [hfull] at hc; cases hc), fun _ => ⟨?_, ?_⟩⟩⟩
+    · rw [hpsumA, ← hscoreDone _ hsc]
+      have := I.score
+      grind
+    · show ((hR.take nu).take v.nextUse).take v.nextUse = hR.take v.nextUse
+      rw [List.take_take, Nat.min_self, List.take_take, Nat.min_eq_left hnu']
+    · show (v.backIn.take v.nextUse).take v.nextUse = _
+      rw [List.take_take, Nat.min_self, s7.back]
+      simp only [List.append_nil]
+      rfl
+    · rw [hFs]; exact hcl.append_word H A[ka]
+    · intro kk h1 h2; simpa using s7.dead kk h1 h2
+  · have hopen : left.full = false := by simpa using hfull
+    obtain ⟨o1, o2⟩ := I.open_ hopen
+    have hw : (!left.full) = true := by simp [hopen]
+    -- in open mode everything revealed so far is offered: the history is `M.reverse ++ bw.take kb`
+    let hc := M.reverse ++ bw.take kb
+    have hcl : hc.length = M.length + kb := by simp [hc, hPl]
+    have hnuc : nu = hc.length := by rw [hcl]; exact o2
+    have hctake : ∀ j, j ≤ M.length + kb → hR.take j = hc.take j := by
+      intro j hj
+      show hR.take j = (M.reverse ++ bw.take kb).take j
+      rw [← hcur, List.take_take, Nat.min_eq_left hj]
+    have C : LoopCtx a T A [] hc (ka+1) nu :=
+      ⟨by omega, fun i hi => by simpa using GA.ptr_xl i (by omega), by have := GA.L_lt; simp; omega, by omega⟩
+    have I0 : InvL a A [] hc nu ka { nextUse := nu, backIn := (right.backoff.take right.length).take nu } := by
+      refine ⟨Nat.le_refl _, by have := I.hN; show ka + 0 + 1 + nu ≤ a.order; omega, ?_, fun kk h1 h2 => by
+        have h1' : nu < kk := h1
+        omega⟩
+      show ((right.backoff.take right.length).take nu).take nu = _
+      rw [List.take_take, Nat.min_self, List.take_take, Nat.min_self, I.back]
+      apply List.map_congr_left
+      intro j hj
+      have hj' : j < nu := by simpa using hj
+      rw [hctake (j+1) (by omega)]; simp
+    obtain ⟨Lw, s1, s2, s3, s4, s5, s6, s7, s8, s9⟩ :=
+      extendLoop_sem H R C ka ka (by simp) (by omega) (right.backoff.take right.length) I0 (!left.full) (fun _ => hnuc)
+    unfold revealAfter
+    dsimp only
+    rw [I.words, hps, hctake nu (by omega)]
+    generalize extendLoop T R ka (hc.take nu) (right.backoff.take right.length)
+      (((List.range (ka+1)).map (fun i => pre A i ++ [])).drop ka) (!left.full) = v at s4 s7 s8 s9
+    simp only [Bool.false_eq_true, if_false, hopen]
+    have hnu' : v.nextUse ≤ nu := s7.nu_le
+    have hLwk : Lw = ka ∨ Lw = ka + 1 := by omega
+    have hext : pre A ka ++ hc = pre (M ++ A.take (ka+1)) (M.length + ka) ++ bw.take kb := by
+      have hpreA : pre (A.take (ka+1)) ka = pre A ka := by unfold pre; rw [List.take_take, Nat.min_self]
+      rw [pre_concat M (A.take (ka+1)) ka (by rw [List.length_take]; omega), hpreA, List.append_assoc]
+    have hwords' : ((hc.take nu).take v.nextUse).take v.nextUse = hR.take v.nextUse := by
+      rw [List.take_take, Nat.min_self, List.take_take, Nat.min_eq_left hnu', hctake v.nextUse (by omega)]
+    have hback' : (v.backIn.take v.nextUse).take v.nextUse =
+        (List.range v.nextUse).map (fun j => a.boW (gm1 A (ka+1) ++ hR.take (j+1))) := by
+      rw [List.take_take, Nat.min_self, s7.back]
+      apply List.map_congr_left
+      intro j hj
+      have hj' : j < v.nextUse := by simpa using hj
+      rw [hctake (j+1) (by omega)]; simp
+    have hN' : ka + 1 + 1 + v.nextUse ≤ a.order := by have := s7.hN; simpa using this
+    -- the new left state
+    have hptrs' : left.pointers ++ v.written = (List.range (M.length + Lw)).map (fun i => pre (M ++ A.take (ka+1)) i ++ bw.take kb) := by
+      rw [I.ptrs, o1, hFl, hptrsF (M.length + ka) (by omega), s4]
+      rcases hLwk with h | h
+      · rw [h, List.drop_eq_nil_of_le (by simp)]; simp
+      · rw [h]
+        have e : M.length + (ka + 1) = (M.length + ka) + 1 := by omega
+        have hw1 : ((List.range (ka+1)).drop ka) = [ka] := by
+          rw [List.range_succ, List.drop_append_of_le_length (by simp), List.drop_eq_nil_of_le (by simp)]
+          rfl
+        rw [hw1, e, List.range_succ, List.map_append]
+        simp only [List.map_cons, List.map_nil, List.append_nil]
+        rw [hext]
+    have hxl' : ∀ i, i < M.length + Lw → T.xl (pre (M ++ A.take (ka+1)) i ++ bw.take kb) = true := by
+      intro i hi
+      by_cases hlt : i < M.length + ka
+      · rw [hpreF i (by omega)]; exact I.xl i (by omega)
+      · have hi' : i = M.length + ka := by omega
+        have hLw' : Lw = ka + 1 := by omega
+        have := s5 ka (Nat.le_refl _) (by omega)
+        rw [hi', ← hext]; simpa using this
+    have hbound' : M.length + Lw + kb ≤ a.order - 1 := by
+      rcases hLwk with h | h
+      · rw [h]; have := I.bound; omega
+      · have := s6 (by omega); rw [hcl] at this; simp only [List.length_nil, Nat.add_zero] at this; omega
+    have hscore' : pM + psum R A [] (ka+1) + (acc + v.adjust) =
+        psum R (M ++ A.take (ka+1)) (bw.take kb) (M.length + Lw) +
+          specSeq a (gm1 (M ++ A.take (ka+1)) (M.length + Lw) ++ bw.take kb) ((M ++ A.take (ka+1)).drop (M.length + Lw)) := by
+      have hsc := I.score
+      rw [o1, hFl] at hsc
+      rcases hLwk with h | h
+      · -- finalised
+        have hdone : v.adjust + R (pre A ka) = score a ((M ++ A.take ka).reverse ++ bw.take kb) A[ka] := by
+          rw [s8, h, Nat.sub_self]
+          have e1 : ka + 1 - ka = 1 := by omega
+          rw [e1]; simp only [dsum, doneTerm, List.append_nil]
+          rw [getD_getElem _ _ hkaA, hFrev, List.append_assoc]; grind
+        have := hscoreDone _ hdone
+        rw [o1, hFl] at this
+        rw [h, hpsumA, ← this]; grind
+      · -- pushed
+        have hopenT : v.adjust + R (pre A ka) = R (pre A ka ++ hc) := by
+          rw [s8, h]
+          have e1 : ka + 1 - ka = 1 := by omega
+          rw [e1, Nat.sub_self]; simp only [dsum, openTerm, List.append_nil]; grind
+        have e : M.length + (ka + 1) = (M.length + ka) + 1 := by omega
+        have hdropnil : (M ++ A.take (ka+1)).drop (M.length + ka + 1) = [] :=
+          List.drop_eq_nil_of_le (by rw [List.length_append, List.length_take]; omega)
+        have hdropnil0 : (M ++ A.take ka).drop (M.length + ka) = [] := List.drop_eq_nil_of_le (by rw [hFl]; omega)
+        rw [hdropnil0] at hsc
+        rw [h, e, hdropnil, hpsumA]
+        unfold psum at hsc ⊢
+        rw [dsum_snoc, ← hext]
+        have hpc : dsum (fun i => R (pre (M ++ A.take (ka+1)) i ++ bw.take kb)) 0 (M.length + ka) =
+            dsum (fun i => R (pre (M ++ A.take ka) i ++ bw.take kb)) 0 (M.length + ka) := by
+          apply dsum_congr
+          intro j _ hj
+          rw [hpreF j (by omega)]
+        rw [hpc]
+        simp only [specSeq] at hsc ⊢
+        grind
+    refine ⟨M.length + Lw, ⟨by omega, hptrs', hxl', by rw [hFs]; simp [hFl]; omega, hbound', hscore',
+      by show v.nextUse ≤ _; omega, hwords', hN', hback', ?_, ?_⟩⟩
+    · intro hcc
+      have hc' : ((v.makeFull || v.nextUse == T.order - 1) || (left.pointers ++ v.written).length == T.order - 1) = false := hcc
+      simp only [Bool.or_eq_false_iff] at hc'
+      obtain ⟨⟨hc1, _⟩, _⟩ := hc'
+      rcases s9 with ⟨_, m2⟩ | ⟨m1, _⟩
+      · obtain ⟨m3, m4⟩ := m2 hw
+        exact ⟨by rw [hFs]; simp [hFl]; omega, by show v.nextUse = _; rw [m4]; exact o2⟩
+      · rw [m1] at hc1; cases hc1
+    · intro hcc
+      have hc' : ((v.makeFull || v.nextUse == T.order - 1) || (left.pointers ++ v.written).length == T.order - 1) = true := hcc
+      have hclosed : ClosedP T (M ++ A.take (ka+1)) (bw.take kb) (M.length + Lw) := by
+        rcases s9 with ⟨m1, m2⟩ | ⟨_, _, m3⟩
+        · obtain ⟨m3, m4⟩ := m2 hw
+          right; right
+          refine ⟨by rw [hFs]; simp [hFl]; omega, ?_⟩
+          rw [m1] at hc'
+          simp only [Bool.false_or, Bool.or_eq_true, beq_iff_eq] at hc'
+          rcases hc' with hc' | hc'
+          · rw [m4, hord] at hc'; omega
+          · rw [hptrs'] at hc'
+            simp only [List.length_map, List.length_range] at hc'
+            rw [hPl, hc']
+            rw [hord] at hc' ⊢
+            omega
+        · exact closedP_of_cnA H M A (bw.take kb) ka Lw hkaA (by omega) (by omega) m3
+      refine ⟨hclosed, ?_⟩
+      intro kk hk1 hk2
+      have hk1' : v.nextUse < kk := hk1
+      by_cases hle : kk ≤ M.length + kb
+      · have := s7.dead kk hk1' (by omega)
+        rw [hctake kk hle]; simpa using this
+      · have e : kk = M.reverse.length + (kb + (kk - (M.length + kb))) := by simp; omega
+        have hg : gm1 A (ka+1) = (A.take (ka+1)).reverse := rfl
+        show ¬ live a (gm1 A (ka+1) ++ (M.reverse ++ bw).take kk)
+        rw [e, take_append_len, List.take_add, hg, ← List.append_assoc, ← List.append_assoc, ← List.reverse_append]
+        apply closedP_dead H hclosed
+        apply take_ne_nil (by omega)
+        simp only [List.length_drop]; rw [hRl] at hk2; omega
+
 end KV.Left
